@@ -8,7 +8,7 @@ variable {σ : Type}
 
 /-- Contract on the style parameters under which a tag body cannot be ended early by a `>`:
 the CSS rule never contains `>`; and, only for the code that writes the link verbatim
-(`escapeHref = false`, today's code), neither does a link. -/
+(`escapeHref = false`, rich 9.10.0 as found, before fix e488480), neither does a link. -/
 structure TagSafe (v : Variant) (env : StyleEnv σ) : Prop where
   rule : ∀ s, '>' ∉ env.htmlRule s
   link : v.escapeHref = false → ∀ s l, linkOf env s = some l → '>' ∉ l
